@@ -21,13 +21,13 @@ func init() {
 			if tier == "thorough" {
 				return 3000
 			}
-			return 160
+			return 400
 		},
 		MinNT: func(tier string) int {
 			if tier == "thorough" {
 				return 1500
 			}
-			return 60
+			return 150
 		},
 		Run: runC05,
 		Assumptions: []string{
